@@ -36,6 +36,13 @@ Proof.
   - intros y z Hy Hg. specialize (H2 y Hy). rewrite Hg in H2. cbn in H2. lia.
 Qed.
 
+Lemma inclb_sound : forall l1 l2 : bytes, forallb (fun x => memb x l2) l1 = true -> incl l1 l2.
+Proof.
+  intros l1 l2 H x Hx. rewrite forallb_forall in H. specialize (H x Hx).
+  unfold memb in H. apply existsb_exists in H. destruct H as (y & Hy & E).
+  apply N.eqb_eq in E. subst. exact Hy.
+Qed.
+
 (* ---- association lists ---------------------------------------------------- *)
 Lemma get_in : forall m x y s, get m x y = Ok s -> In ((x, y), s) m.
 Proof.
@@ -234,3 +241,146 @@ Lemma local_optimal0 : forall m a b, covers m a b -> gap_open m = Ok 0 ->
   exists ls, local_score m a b = Ok ls /\
     forall i j al s, score m (skipn i a) (skipn j b) al = Ok s -> s <= ls.
 Proof. intros m a b. apply (local_optimal0_g (get m)). Qed.
+
+Lemma local_none_iff : forall m a b, covers m a b -> nonpos_gaps m a b ->
+  exists al ai bi s, local m a b = Ok (al, ai, bi, s) /\
+    (al = [] <-> forall x y z, In x a -> In y b -> get m x y = Ok z -> z <= 0).
+Proof. intros m a b. apply (local_none_iff_g (get m)). Qed.
+
+Lemma global_swap : forall m a b, symmetric_g (get m) -> covers m a b -> gap_open m = Ok 0 ->
+  global_score m a b = global_score m b a.
+Proof. intros m a b. apply (global_swap_g (get m)). Qed.
+
+Lemma local_swap : forall m a b, symmetric_g (get m) -> covers m a b -> nonpos_gaps m a b ->
+  gap_open m = Ok 0 -> local_score m a b = local_score m b a.
+Proof. intros m a b. apply (local_swap_g (get m)). Qed.
+
+Lemma global_affine_lower : forall m a b o, covers m a b -> gap_open m = Ok o -> o <= 0 ->
+  exists gs, global_score m a b = Ok gs /\
+    forall al s, consumes al = (length a, length b) -> score_linear m a b al = Ok s -> s <= gs.
+Proof. intros m a b o. apply (global_affine_lower_g (get m)). Qed.
+
+Lemma local_affine_lower : forall m a b o, covers m a b -> gap_open m = Ok o -> o <= 0 ->
+  exists ls, local_score m a b = Ok ls /\
+    forall i j al s, score_linear m (skipn i a) (skipn j b) al = Ok s -> s <= ls.
+Proof. intros m a b o. apply (local_affine_lower_g (get m)). Qed.
+
+(* ---- shipped matrices: never panic, arguments can be swapped ------------------ *)
+Lemma shipped_never_panics : forall m a b, In m shipped_tabs ->
+  incl a protein_letters -> incl b protein_letters ->
+  (exists r, global m a b = Ok r) /\ (exists r, local m a b = Ok r).
+Proof. intros m a b Hm Ha Hb. apply no_panic. apply shipped_covers; assumption. Qed.
+
+Lemma shipped_swap : forall m a b, In m shipped_tabs ->
+  incl a protein_letters -> incl b protein_letters ->
+  global_score m a b = global_score m b a /\ local_score m a b = local_score m b a.
+Proof.
+  intros m a b Hm Ha Hb. split.
+  - apply global_swap; [apply shipped_symmetric|apply shipped_covers|apply shipped_gap_open_zero]; assumption.
+  - apply local_swap; [apply shipped_symmetric|apply shipped_covers|apply shipped_nonpos
+                       |apply shipped_gap_open_zero]; assumption.
+Qed.
+
+Lemma shipped_optimal : forall m a b, In m shipped_tabs ->
+  incl a protein_letters -> incl b protein_letters ->
+  (exists gs, global_score m a b = Ok gs /\
+     forall al s, consumes al = (length a, length b) -> score m a b al = Ok s -> s <= gs)
+  /\ (exists ls, local_score m a b = Ok ls /\
+     forall i j al s, score m (skipn i a) (skipn j b) al = Ok s -> s <= ls).
+Proof.
+  intros m a b Hm Ha Hb. split.
+  - apply global_optimal0; [apply shipped_covers|apply shipped_gap_open_zero]; assumption.
+  - apply local_optimal0; [apply shipped_covers|apply shipped_gap_open_zero]; assumption.
+Qed.
+
+(* ---- Levenshtein ----------------------------------------------------------------- *)
+Lemma lev_get_agrees : forall a b,
+  Forall (fun x => (x < 255)%N) a -> Forall (fun x => (x < 255)%N) b -> agrees wlev lev_get a b.
+Proof.
+  intros a b Ha Hb x y Hx Hy.
+  rewrite Forall_forall in Ha, Hb.
+  assert (Hx' : (x < 256)%N) by (destruct Hx as [<-|Hx]; [reflexivity|specialize (Ha x Hx); lia]).
+  assert (Hy' : (y < 256)%N) by (destruct Hy as [<-|Hy]; [reflexivity|specialize (Hb y Hy); lia]).
+  rewrite (lev_rule_all x y Hx' Hy'). reflexivity.
+Qed.
+
+Lemma lt255_no_gap : forall a, Forall (fun x => (x < 255)%N) a -> ~ In Gap a.
+Proof.
+  intros a H Hin. rewrite Forall_forall in H. specialize (H Gap Hin). unfold Gap in H. lia.
+Qed.
+
+(* the shipped table: byte strings over 0..254 (255 is the gap byte) *)
+Lemma lev_is_edit_distance : forall a b,
+  Forall (fun x => (x < 255)%N) a -> Forall (fun x => (x < 255)%N) b ->
+  global_score_g lev_get a b = Ok (- Z.of_nat (edit_distance a b)).
+Proof.
+  intros a b Ha Hb. apply lev_edit_distance_g.
+  - apply lev_get_agrees; assumption.
+  - apply lt255_no_gap; exact Ha.
+  - apply lt255_no_gap; exact Hb.
+Qed.
+
+(* the rule itself, over any alphabet that avoids the gap byte *)
+Lemma lev_rule_is_edit_distance : forall a b, ~ In Gap a -> ~ In Gap b ->
+  global_score_g lev_rule a b = Ok (- Z.of_nat (edit_distance a b)).
+Proof.
+  intros a b Ha Hb. apply lev_edit_distance_g; [|exact Ha|exact Hb].
+  intros x y _ _. reflexivity.
+Qed.
+
+Lemma lev_never_panics : forall a b,
+  Forall (fun x => (x < 255)%N) a -> Forall (fun x => (x < 255)%N) b ->
+  (exists r, global_g lev_get a b = Ok r) /\ (exists r, local_g lev_get a b = Ok r).
+Proof.
+  intros a b Ha Hb. apply no_panic_g. intros x y Hx Hy.
+  rewrite (lev_get_agrees a b Ha Hb x y Hx Hy). eauto.
+Qed.
+
+(* ---- C10: the full statement and its refutation ------------------------------------ *)
+Definition global_optimal_at (m : matrix) (a b : bytes) : Prop :=
+  exists gs, global_score m a b = Ok gs /\
+    forall al s, consumes al = (length a, length b) -> score m a b al = Ok s -> s <= gs.
+
+Definition local_optimal_at (m : matrix) (a b : bytes) : Prop :=
+  exists ls, local_score m a b = Ok ls /\
+    forall i j al s, score m (skipn i a) (skipn j b) al = Ok s -> s <= ls.
+
+Definition affine_optimal_statement : Prop :=
+  forall m a b o, covers m a b -> nonpos_gaps m a b -> gap_open m = Ok o -> o <> 0 ->
+    global_optimal_at m a b /\ local_optimal_at m a b.
+
+Lemma global_affine_refuted :
+  exists m a b o, covers m a b /\ nonpos_gaps m a b /\ gap_open m = Ok o /\ o <> 0
+    /\ exists al s gs, consumes al = (length a, length b) /\ score m a b al = Ok s
+         /\ global_score m a b = Ok gs /\ gs < s.
+Proof.
+  destruct d7_global_facts as (Hc & Hn & Ho & Hal & Hs & Hg).
+  exists d7_global_m, d7_global_a, d7_global_b, (-2).
+  split; [apply coversb_sound; exact Hc|]. split; [apply nonposb_sound; exact Hn|].
+  split; [exact Ho|]. split; [lia|].
+  exists d7_global_al, (-4), (-6). split; [exact Hal|]. split; [exact Hs|].
+  split; [unfold global_score, global_score_g; fold (global d7_global_m d7_global_a d7_global_b);
+          rewrite Hg; reflexivity|lia].
+Qed.
+
+Lemma local_affine_refuted :
+  exists m a b o, covers m a b /\ nonpos_gaps m a b /\ gap_open m = Ok o /\ o <> 0
+    /\ exists i j al s ls, score m (skipn i a) (skipn j b) al = Ok s
+         /\ local_score m a b = Ok ls /\ ls < s.
+Proof.
+  destruct d7_local_facts as (Hc & Hn & Ho & Hal & Hs & Hg).
+  exists d7_local_m, d7_local_a, d7_local_b, (-1).
+  split; [apply coversb_sound; exact Hc|]. split; [apply nonposb_sound; exact Hn|].
+  split; [exact Ho|]. split; [lia|].
+  exists O, O, d7_local_al, 5, 4. split; [exact Hs|].
+  split; [unfold local_score, local_score_g; fold (local d7_local_m d7_local_a d7_local_b);
+          rewrite Hg; reflexivity|lia].
+Qed.
+
+Lemma affine_optimal_statement_false : ~ affine_optimal_statement.
+Proof.
+  intros H.
+  destruct global_affine_refuted as (m & a & b & o & Hc & Hn & Ho & Hne & al & s & gs & Hal & Hs & Hg & Hlt).
+  destruct (H m a b o Hc Hn Ho Hne) as [(gs' & Hg' & Hb) _].
+  rewrite Hg in Hg'. injection Hg' as <-. specialize (Hb al s Hal Hs). lia.
+Qed.
